@@ -205,6 +205,8 @@ FUNCS += [
     Fn("alloc_guard", "free", "pure", file="src/collections/raw_vec.rs", group="RawVec"),
     Fn("amortized_new_size", "rawvec", "read", file="src/collections/raw_vec.rs", group="RawVec"),
     Fn("current_layout", "rawvec", "read", file="src/collections/raw_vec.rs", group="RawVec"),
+    Fn("dealloc_buffer", "rawvec", "st", file="src/collections/raw_vec.rs", group="RawVec"),
+    Fn("shrink_to_fit", "rawvec", "st", file="src/collections/raw_vec.rs", group="RawVec", lean="rv_shrink_to_fit"),
     Fn("reserve_internal", "rawvec", "st", file="src/collections/raw_vec.rs", group="RawVec", lean="rv_reserve_internal"),
     Fn("reserve_internal_or_error", "rawvec", "st", file="src/collections/raw_vec.rs", group="RawVec"),
     Fn("reserve_internal_or_panic", "rawvec", "st", file="src/collections/raw_vec.rs", group="RawVec"),
@@ -226,6 +228,7 @@ FUNCS += [
     Fn("reserve_exact", "vec", "st", file=VEC_RS, group="Vec", anchor=VEC_IMPL, lean="vec_reserve_exact"),
     Fn("try_reserve", "vec", "st", file=VEC_RS, group="Vec", anchor=VEC_IMPL, lean="vec_try_reserve"),
     Fn("try_reserve_exact", "vec", "st", file=VEC_RS, group="Vec", anchor=VEC_IMPL, lean="vec_try_reserve_exact"),
+    Fn("shrink_to_fit", "vec", "st", file=VEC_RS, group="Vec", anchor=VEC_IMPL, lean="vec_shrink_to_fit"),
     Fn("push", "vec", "st", file=VEC_RS, group="Vec", anchor=VEC_IMPL, lean="vec_push"),
     Fn("pop", "vec", "st", file=VEC_RS, group="Vec", anchor=VEC_IMPL, lean="vec_pop"),
     Fn("insert", "vec", "st", file=VEC_RS, group="Vec", anchor=VEC_IMPL, lean="vec_insert"),
@@ -704,6 +707,7 @@ class Tr:
                 return None
             if ty == "static" and f == "0": return t, CHUNK
             if ty == RAWVEC and f == "cap": return f"{paren(t)}.cap", NAT
+            if ty == RAWVEC and f == "a": return "()", UNIT      # the `&Bump` the buffer lives in
             if ty == VECSELF and f == "len": return f"{self.sv}.1.len", NAT
             if ty == VECSELF and f == "buf": return f"{self.sv}.1", RAWVEC
             if ty == "selfstruct" and ("self." + f) in env.d: return env.d["self." + f]
@@ -1287,7 +1291,10 @@ class Tr:
         if segs[-1] == "unreachable_unchecked":
             return self.bad("unreachable_unchecked reached")
         if self.fn.kind == "rawvec" and segs == ["Alloc", "alloc"] and len(args) == 2:
-            return self.E(args[1], env, K(lambda t, ty, env_: k(f"(RsV.arena_serves c {paren(t)}.size)", res(UNIT), env_)))
+            return self.E(args[1], env, K(lambda t, ty, env_: self.bind_call(f"RsV.arena_realloc c {paren(t)}.size", "st", k, env_, res(UNIT))))
+        if self.fn.kind == "rawvec" and segs[-2:] == ["ptr", "write"] and len(args) == 2 and args[0] == ("path", ["self"]) \
+                and args[1][0] == "call" and args[1][1] == ("path", ["RawVec", "new_in"]):
+            return self.bind_call("RsV.reset_new", "st", k, env, UNIT)
         if n == "arith_offset" and len(args) == 2 and args[1][0] == "un" and args[1][1] == "-" and args[1][2][0] == "int":
             def kneg(t, ty, env_):
                 if ty != SLOT:
@@ -1723,7 +1730,9 @@ class Tr:
             return self.LOOP(env.d[recv[1][1][0]][0], recv[3][0], env, k)
         if self.fn.kind == "rawvec" and recv == ("field", ("path", ["self"]), "a") and name == "realloc" and len(args) == 3:
             # the arena serves (or refuses) the request; the buffer's contents move with it (see `RsV.set_cap`)
-            return self.args(args[1:], env, lambda pa, env_: k(f"(RsV.arena_serves c {paren(pa[1][0])})", res(UNIT), env_))
+            return self.args(args[1:], env, lambda pa, env_: self.bind_call(f"RsV.arena_realloc c {paren(pa[1][0])}", "st", k, env_, res(UNIT)))
+        if self.fn.kind == "rawvec" and recv == ("field", ("path", ["self"]), "a") and name == "dealloc" and len(args) == 2:
+            return self.args(args[1:], env, lambda pa, env_: self.bind_call("RsV.arena_dealloc", "st", k, env_, UNIT))
         if recv == ("path", ["self"]) and self.fn.kind == "rawvec":
             if name in EXTERNAL_RV:
                 # callers keep reaching the hand model of this function (its own translation is tied to it by a theorem)
